@@ -35,6 +35,8 @@ Definition dec_att0 (_ : tok) (c : code) : option attempt := match c with CAtt a
 Inductive cop :=
 | CCreate (p : plan)
 | CKilledCreate (p : plan)        (* Create in a child process that was killed at a random instant *)
+| CCancelledCreate (p : plan)     (* Create whose context was cancelled at a random instant: nil => stored; error => no trace *)
+| CCancelledDelete (id : uid)     (* Delete whose context was cancelled: nil => gone; error => all there or all gone *)
 | CCreateStage (n : nat) (p : plan)   (* cosmosdb Create with an injected fault: 0 = plan batch fails, 1 = search batch fails,
                                          3 = ReadItem fails with a non-404 error (the Exists pre-check) *)
 | CDeleteStage (n : nat) (id : uid)   (* cosmosdb Delete with an injected fault: 0 = plan batch fails, 1 = search batch fails *)
@@ -121,7 +123,8 @@ Definition cosmos_vault (bad : list N) : vault :=
 
 Definition to_op (c : cop) : option xop :=
   match c with
-  | CCreate p | CKilledCreate p => option_map (fun q => XOp (OCreate q)) (of_plan p)
+  | CCreate p | CKilledCreate p | CCancelledCreate p => option_map (fun q => XOp (OCreate q)) (of_plan p)
+  | CCancelledDelete id => Some (XOp (ODelete id))
   | CCreateStage n p => option_map (XCreateStage n) (of_plan p)
   | CDeleteStage n id => Some (XDeleteStage n id)
   | CUpdatePlanStage n id rs st sub => Some (XUpdatePlanStage n id rs st sub)
@@ -241,6 +244,30 @@ Fixpoint check_steps (v : vault) (tbl : list plan) (i : nat) (d : v_st v) (steps
           match check_obs v tbl d ob with
           | [] => check_steps v tbl (S i) d r
           | _ => 4 :: i :: bad1
+          end
+        end
+      | CCancelledCreate _ | CCancelledDelete _ =>
+        match o_ok ob with
+        | Some true =>
+          (* it reported success: the model must succeed too, and the state is the one after *)
+          if ok then match check_obs v tbl d1 ob with
+                     | [] => check_steps v tbl (S i) d1 r
+                     | bad => 2 :: i :: bad
+                     end
+          else [6; i]
+        | _ =>
+          (* it reported an error: nothing changed (a Delete may also have gone through completely) *)
+          match check_obs v tbl d ob with
+          | [] => check_steps v tbl (S i) d r
+          | bad0 =>
+            match c with
+            | CCancelledDelete _ =>
+              match check_obs v tbl d1 ob with
+              | [] => check_steps v tbl (S i) d1 r
+              | _ => 7 :: i :: bad0
+              end
+            | _ => 7 :: i :: bad0
+            end
           end
         end
       | _ =>
